@@ -60,6 +60,9 @@ def _uses_uninterpreted(t, _seen=None):
     return any(_uses_uninterpreted(c, _seen) for c in t.children())
 
 
+NATIVE_ONLY = set()  # (dtypes, kinds) shapes that only get a LIB (native) obligation
+
+
 def shapes_for(opname, op):
     """yield (label, param dtypes, kinds) with kinds[i] in col|lit|none"""
     seen = set()
@@ -94,6 +97,12 @@ def shapes_for(opname, op):
                             variants.append(tuple("none" if i == j else ("lit" if consts[i] else "col") for i in range(n)))
                     if n == 3 and not any(consts):
                         variants.append(("col", "lit", "none"))
+                    # ... and at the first position (reflected forms: None // col), and two None literals before a column
+                    # (native conformance layer only: the symbolic engine models give an untyped NULL no sort of its own)
+                    if not any(consts):
+                        for v in [tuple("none" if i == 0 else "col" for i in range(n))] + ([("none", "none", "col")] if n == 3 else []):
+                            variants.append(v)
+                            NATIVE_ONLY.add((tuple(map(str, dts)), v))
                 for kinds in variants:
                     key = (tuple(map(str, dts)), kinds)
                     if key in seen:
@@ -229,6 +238,8 @@ def make_lib(opname, op, dts, kinds, backend, seed):
             model_in = {}
             ok = True
             for i, (dt, k) in enumerate(zip(dts, kinds)):
+                if k == "none":
+                    continue  # a None literal: null by construction
                 vals = SAMPLES.get(str(dt))
                 if vals is None:
                     ok = False
@@ -540,6 +551,13 @@ def temporal_run_factory(backend):
             ("d <= date literal", lambda: t.d <= dtm.date(2020, 2, 29), [N(lambda a: a <= dtm.date(2020, 2, 29))(a) for a in ds]),
             ("dt.cast(Date)", lambda: t.dt.cast(pdt.Date()), [N(lambda a: a.date())(a) for a in dts]), ("d.cast(Datetime)", lambda: t.d.cast(pdt.Datetime()), [N(lambda a: dtm.datetime(a.year, a.month, a.day))(a) for a in ds]),
             ("max(dt, dtb)", lambda: pdt.max(t.dt, t.dtb), [max([x for x in (a, b) if x is not None], default=None) for a, b in zip(dts, dtb)]),
+            # the raw Duration value of a subtraction (SQLite has no duration type: it has to refuse, not to answer something else)
+            ("dt - dtb (exported)", lambda: t.dt - t.dtb, [N(lambda a, b: a - b)(a, b) for a, b in zip(dts, dtb)]),
+            ("d - d2 (exported)", lambda: t.d - dtm.date(2019, 12, 31), [N(lambda a: a - dtm.date(2019, 12, 31))(a) for a in ds]),
+            # an untyped None operand: arithmetic and comparisons propagate null, horizontal max skips it
+            ("dt + None", lambda: t.dt + None, [None] * len(dts)), ("dt - None", lambda: (t.dt - None).is_null(), [True] * len(dts)), ("d - None", lambda: (t.d - None).is_null(), [True] * len(ds)),
+            ("dt > None", lambda: t.dt > None, [None] * len(dts)), ("d == None", lambda: t.d == None, [None] * len(ds)),  # noqa: E711
+            ("max(dt, None)", lambda: pdt.max(t.dt, None), list(dts)), ("coalesce(None, d)", lambda: pdt.coalesce(None, t.d), list(ds)),
         ]
         with warnings.catch_warnings():
             warnings.simplefilter("ignore")
@@ -578,7 +596,8 @@ def numeric_run_factory(backend):
         pdt = H.pdt
         xs = [2.3456, -2.3456, 0.7249, 17.0491, -0.3149, None, 123.4567, 1.0]  # no value is a rounding tie at 0, 1 or 2 digits
         ns = [7, -7, 0, 3, -12, None, 100, 1]
-        df = pl.DataFrame({"x": pl.Series(xs, dtype=pl.Float64), "n": pl.Series(ns, dtype=pl.Int64), "h": list(range(8))})
+        ys = [3.0, 0.5, 2.5, 1.5, 2.0, 1.0, None, 3.0]
+        df = pl.DataFrame({"x": pl.Series(xs, dtype=pl.Float64), "n": pl.Series(ns, dtype=pl.Int64), "y": pl.Series(ys, dtype=pl.Float64), "h": list(range(8))})
         if backend == "polars":
             t = pdt.Table(df, name="t")
         else:
@@ -610,6 +629,14 @@ def numeric_run_factory(backend):
             ("(x.abs() + 1).log()", lambda: (t.x.abs() + 1).log(), [N(lambda v: math.log(abs(v) + 1))(v) for v in xs]), ("(x.abs() + 1).log10()", lambda: (t.x.abs() + 1).log10(), [N(lambda v: math.log10(abs(v) + 1))(v) for v in xs]),
             ("x.sin()", lambda: t.x.sin(), [N(math.sin)(v) for v in xs]), ("x.cos()", lambda: t.x.cos(), [N(math.cos)(v) for v in xs]), ("x.cbrt()", lambda: t.x.cbrt(), [N(lambda v: math.copysign(abs(v) ** (1 / 3), v))(v) for v in xs]),
             ("n // 4", lambda: t.n // 4, [N(lambda v: int(math.trunc(v / 4)) if False else (abs(v) // 4) * (1 if v >= 0 else -1))(v) for v in ns]), ("n % 4", lambda: t.n % 4, [N(lambda v: int(math.fmod(v, 4)))(v) for v in ns]),
+            # two Float64 columns, also with tiny results (relative accuracy: a result must not be rounded to a fixed number of decimals)
+            ("rel: x.abs() ** y", lambda: t.x.abs() ** t.y, [N(lambda a, b: abs(a) ** b)(a, b) for a, b in zip(xs, ys)]),
+            ("rel: (x / 10000).abs() ** y", lambda: (t.x / 10000).abs() ** t.y, [N(lambda a, b: abs(a / 10000) ** b)(a, b) for a, b in zip(xs, ys)]),
+            ("rel: (x / 100000) * (x / 100000)", lambda: (t.x / 100000) * (t.x / 100000), [N(lambda a: (a / 100000) * (a / 100000))(a) for a in xs]),
+            ("rel: (x / 100000) / (y * 1000)", lambda: (t.x / 100000) / (t.y * 1000), [N(lambda a, b: (a / 100000) / (b * 1000))(a, b) for a, b in zip(xs, ys)]),
+            ("rel: n ** y", lambda: t.n.abs() ** t.y, [N(lambda a, b: float(abs(a)) ** b)(a, b) for a, b in zip(ns, ys)]),
+            ("n.clip(-1.5, 2.5)  [integer column, float bounds]", lambda: t.n.clip(-1.5, 2.5), [N(lambda v: max(-1.5, min(2.5, float(v))))(v) for v in ns]),
+            ("n.clip(-2, 2.5)  [integer column, mixed bounds]", lambda: t.n.clip(-2, 2.5), [N(lambda v: max(-2.0, min(2.5, float(v))))(v) for v in ns]),
             ("n.clip(-5, 5)", lambda: t.n.clip(-5, 5), [N(lambda v: max(-5, min(5, v)))(v) for v in ns]), ("x.clip(0, None)", lambda: t.x.clip(0.0, None), [N(lambda v: max(0.0, v))(v) for v in xs]),
         ]
         n, bad = 0, []
@@ -624,7 +651,7 @@ def numeric_run_factory(backend):
                 except Exception as ex:  # noqa: BLE001
                     bad.append(f"{label} on {backend}: raises {type(ex).__name__}: {str(ex)[:140]}")
                     continue
-                ok = len(got) == len(want) and all((g is None and w is None) or (g is not None and w is not None and w != "domain" and abs(float(g) - float(w)) <= 1e-9 * max(1.0, abs(float(w)))) or w == "domain" for g, w in zip(got, want))
+                ok = len(got) == len(want) and all((g is None and w is None) or (g is not None and w is not None and w != "domain" and abs(float(g) - float(w)) <= 1e-9 * (abs(float(w)) if label.startswith("rel:") else max(1.0, abs(float(w))))) or w == "domain" for g, w in zip(got, want))
                 if not ok:
                     bad.append(f"{label} on {backend}: engine {got}, Python gives {want}")
         return _enum_outcome(f"numeric functions on {backend} agree with Python's math on sampled values (no rounding ties)", n, bad)
@@ -705,7 +732,8 @@ def obligations(tier):
                 bounded = None
                 if any(s.is_vararg for s in op.signatures) and nvar > 2:
                     bounded = f"vararg length {nvar} (lengths up to fixed+2 are enumerated; values unbounded)"
-                obs.append(
+                if (tuple(map(str, dts)), tuple(kinds)) not in NATIVE_ONLY:
+                  obs.append(
                     Obligation(
                         oid,
                         "E1",
@@ -718,7 +746,7 @@ def obligations(tier):
                         tags=("cross_backend",),
                     )
                 )
-                if all(str(d) in SAMPLES for d in dts) and "none" not in kinds:
+                if all(str(d) in SAMPLES for d, k in zip(dts, kinds) if k != "none"):
                     obs.append(
                         Obligation(
                             oid.replace("/E1/", "/LIB/"),
@@ -732,10 +760,10 @@ def obligations(tier):
                     )
     for backend in BACKENDS:
         obs.append(Obligation(f"C03/LIB-dt/{backend}", "LIB", f"temporal operators on {backend} against Python's datetime (the symbolic model treats temporal values as abstract ordinals)", temporal_run_factory(backend),
-                              functions=[disp[backend]], bounded="26 temporal expressions on 6 rows (leap day, year end, microseconds, negative durations, nulls); native execution", tags=("cross_backend",)))
+                              functions=[disp[backend]], bounded="35 temporal expressions (incl. untyped None operands) on 6 rows (leap day, year end, microseconds, negative durations, nulls); native execution", tags=("cross_backend",)))
     for backend in BACKENDS:
         obs.append(Obligation(f"C03/LIB-num/{backend}", "LIB", f"rounding / power / transcendental functions on {backend} against Python's math", numeric_run_factory(backend), functions=[disp[backend]],
-                              bounded="21 numeric expressions on 8 rows (negative values, nulls, no rounding ties); native execution", tags=("cross_backend",)))
+                              bounded="28 numeric expressions on 8 rows (negative values, nulls, no rounding ties); native execution", tags=("cross_backend",)))
     obs.append(Obligation("C03/E3/case_reuse", "E3", "case expressions built from a shared open prefix (native, Python oracle)", case_reuse_run, functions=[H.fn_info(H.col_expr_mod.WhenClause.then), H.fn_info(H.col_expr_mod.CaseExpr.when), H.fn_info(H.col_expr_mod.CaseExpr.otherwise), H.fn_info(H.col_expr_mod.ColExpr.map)],
                           bounded="7 case / map expressions sharing prefixes x 2 backends on one 6-row column"))
     obs.append(Obligation("C03/B/method_binding", "B", "methods, accessors, reflected operators and free functions are bound to their operators with the arguments in order", binding_run,
